@@ -142,7 +142,7 @@ func TestC07(t *testing.T) {
 		}
 		return c07Single{Ext: e, Leaf: rapid.Bool().Draw(t, "leaf")}
 	}
-	core.Rapid(r, "single", r.Pick(2500, 100000), genSingle, single)
+	core.Rapid(r, "single", r.Pick(2500, 500000), genSingle, single)
 	genWorld := func(t *rapid.T) extCase {
 		c := genExtCase(t, c07Kinds, 0, 0, false)
 		for i := range c.W.Ents {
@@ -158,5 +158,5 @@ func TestC07(t *testing.T) {
 		}
 		return c
 	}
-	core.Rapid(r, "content", r.Pick(800, 20000), genWorld, wrapWorld)
+	core.Rapid(r, "content", r.Pick(800, 80000), genWorld, wrapWorld)
 }
